@@ -17,3 +17,22 @@ uint64_t _ZN2GV6bottomEv(void){ return GV_BOTID; }
 /* crab::CrabSanityCheckFlag (defined in lib/debug.cpp, default false).  dfcc havocs statics, so the check that
  * depends on it (rename1) sets it in its harness and requires it to be false. */
 uint8_t _ZN4crab19CrabSanityCheckFlagE = 0;
+/* The two libstdc++ helpers through which std::vector<K> destroys an element, `p->~K()`: K's destructor is virtual
+ * (crab::indexable), so the call is an indirect one through the v-table pointer of an element that was loaded from the
+ * vector's heap storage, and cbmc's symbolic execution then walks into EVERY function of a compatible type (tree and
+ * shared_ptr destructors, recursively; measured: never finishes).  They are devirtualised here: the element must be a
+ * genuine K (asserted, not assumed), and for a genuine K the v-table slot is K::~K (slot 0 of _ZTV1K's function part). */
+void _ZN1KD2Ev(K *);
+void _ZSt8_DestroyI1KEvPT_(K *p){
+  __CPROVER_assert(K_OK(p), "std::_Destroy<K>: the element is a genuine K object (v-table pointer of K)");
+  _ZN1KD2Ev(p); }
+void _ZNSt15__new_allocatorI1KE7destroyIS0_EEvPT_(void *self, K *p){
+  __CPROVER_assert(K_OK(p), "allocator<K>::destroy: the element is a genuine K object (v-table pointer of K)");
+  _ZN1KD2Ev(p); }
+/* std::vector<K>::_M_realloc_insert, the growing path of push_back.  project() reserves size() slots before it pushes
+ * at most size() keys, so this path is never taken; its body (allocate, relocate twice, destroy, deallocate) is dropped
+ * and reaching it is an OBLIGATION (asserted, not assumed): kept in line it is explored by symbolic execution in every
+ * iteration of the tree walk although it is infeasible (measured: 200 000 steps, no back end finishes). */
+void _ZNSt6vectorI1KSaIS0_EE17_M_realloc_insertIJRKS0_EEEvN9__gnu_cxx17__normal_iteratorIPS0_S2_EEDpOT_(void *self, K *pos, K *arg){
+  __CPROVER_assert(0, "std::vector<K>::push_back does not reallocate (capacity was reserved)");
+  __CPROVER_assume(0); }
